@@ -6,15 +6,17 @@
 import CnvVerif.Props.C20
 import CnvVerif.Model.ExportExt
 import CnvVerif.Generated.ExprsExport
+import CnvVerif.Lemmas.SrcExportCli
 namespace CnvVerif.C20
 open CnvVerif CnvVerif.Export
 
-/-- every spelling argparse accepts for the sample sex is understood as the sex it spells, whatever the table
-    suggests: m / y / male / Male -> male, f / x / female / Female -> female (the list is read from commands.py) -/
+/-- every spelling argparse accepts for the sample sex (the list is read from commands.py) is understood as the sex
+    it spells, whatever the table suggests: female iff it is f / x / female in any case, male iff m / y / male in any
+    case -- no accepted spelling falls through to a default -/
 theorem cli_stated_sex_wins (guess : Bool) :
     ∀ s ∈ Generated.EXPORT_SEX_CHOICES,
-      verifySampleSex guess (some s) = decide (s ∈ ["f", "x", "female", "Female"]) ∧
-      (verifySampleSex guess (some s) = false ↔ s ∈ ["m", "y", "male", "Male"]) := by
+      (verifySampleSex guess (some s) = true ↔ s.toLower ∈ ["f", "x", "female"]) ∧
+      (verifySampleSex guess (some s) = false ↔ s.toLower ∈ ["m", "y", "male"]) := by
   intro s hs
   simp only [Generated.EXPORT_SEX_CHOICES, List.mem_cons, List.not_mem_nil, or_false] at hs
   rcases hs with rfl | rfl | rfl | rfl | rfl | rfl | rfl | rfl <;> cases guess <;> decide +kernel
@@ -66,5 +68,19 @@ theorem cli_sex_changes_the_listing :
     (cmdExportBed (a (some "Male")) [f]).length = 0 ∧ (cmdExportBed (a (some "x")) [f]).length = 1 ∧
     (cmdExportBed (a none) [f]).length = 1 := by
   decide +kernel
+
+/-! ### the glue is what the source says (Generated/ExprsExport.lean, re-read on every run) -/
+
+/-- `verify_sample_sex` -/
+theorem verify_sample_sex_is_the_source (guess : Bool) (sexArg : Option String) :
+    verifySampleSex guess sexArg = Generated.src_verify_sample_sex guess (sexArg.getD "") :=
+  Src.verifySampleSex_is_source guess sexArg
+
+/-- the label `_cmd_export_bed` hands to `export_bed` (which only tests its truthiness: `none` and `""` both mean
+    "use the gene names") -/
+theorem cmd_bed_label_is_the_source (sampleId : Option String) (labelGenes : Bool) (segId : String) :
+    (cmdBedLabel sampleId labelGenes segId).getD "" =
+      Generated.src_cmd_export_bed_label (sampleId.getD "") labelGenes segId :=
+  Src.cmdBedLabel_is_source sampleId labelGenes segId
 
 end CnvVerif.C20
